@@ -17,4 +17,8 @@ DropFirst(s, x) ==
   LET idx == CHOOSE i \in 1..Len(s) : s[i] = x /\ \A j \in 1..(i - 1) : s[j] # x
   IN SubSeq(s, 1, idx - 1) \o SubSeq(s, idx + 1, Len(s))
 Without(s, x) == SelectSeq(s, LAMBDA y : y # x)
+\* resource levels and amounts are vectors <<a, b>> over the resource types of a supply
+Zero == <<0, 0>>
+VAdd(x, y) == <<x[1] + y[1], x[2] + y[2]>>
+VSub(x, y) == <<x[1] - y[1], x[2] - y[2]>>
 =============================================================================
